@@ -45,7 +45,7 @@ func errClass(err error) string {
 }
 
 func suiteC14(cfg Config, res *Result) {
-	res.Rule = "grammar-generated programs in which the k-th output position is a fault point {{ 1/zz }} (zz = 0: execution error there; zz = 1: fault-free), for every k, plus the same programs without fault; each executed through Execute, ExecuteBytes, ExecuteWriter (to a plain io.Writer, to one that also has WriteString, to a *bytes.Buffer) and ExecuteWriterUnbuffered with a recording writer, and through ExecuteWriter / ExecuteWriterUnbuffered with a writer that starts failing after 0..3 calls (programs include sub-templates); oracle: the four variants produce the same bytes and fail in the same cases; on failure ExecuteWriter wrote nothing and the unbuffered variant a prefix of the fault-free output; a failing caller's writer makes the call return an error — never a panic — having written a prefix; non-trivial = program with a fault point behind >= 1 output; distinct by (program, fault position)"
+	res.Rule = "grammar-generated programs in which the k-th output position is a fault point {{ 1/zz }} (zz = 0: execution error there; zz = 1: fault-free), for every k, plus the same programs without fault; each executed through Execute, ExecuteBytes, ExecuteWriter (to a plain io.Writer, to one that also has WriteString, to a *bytes.Buffer) and ExecuteWriterUnbuffered with a recording writer, and through ExecuteWriter / ExecuteWriterUnbuffered with a writer that starts failing after 0..3 calls (programs include sub-templates), and with contexts the engine rejects (a key that is not an identifier, a key that is an exported macro's name); oracle: the four variants produce the same bytes and fail in the same cases; on failure ExecuteWriter wrote nothing and the unbuffered variant a prefix of the fault-free output; a failing caller's writer makes the call return an error — never a panic — having written a prefix; non-trivial = program with a fault point behind >= 1 output; distinct by (program, fault position)"
 	n := 1500
 	if cfg.Thorough() {
 		n = 30000
@@ -67,7 +67,7 @@ func suiteC14(cfg Config, res *Result) {
 			k = rng.Intn(len(idxs))
 			src = src[:idxs[k]] + "{{ 1/zz }}" + src[idxs[k]:]
 		}
-		pc.Src = src
+		pc.Src = src + "{% macro xm() export %}{% endmacro %}"
 		set, _ := pc.buildSet()
 		var tpl *pongo2.Template
 		func() {
@@ -85,6 +85,14 @@ func suiteC14(cfg Config, res *Result) {
 		mk := func(zz int) pongo2.Context {
 			c := pc.Ctx.Go()
 			c["zz"] = zz
+			switch zz {
+			case 2:
+				c["user-id"] = 1 // not an identifier: every entry point rejects the context
+				c["zz"] = 1
+			case 3:
+				c["xm"] = 1 // the name of an exported macro of the template (see below)
+				c["zz"] = 1
+			}
 			return c
 		}
 		desc := pc.String()
@@ -137,6 +145,20 @@ func suiteC14(cfg Config, res *Result) {
 			continue
 		}
 		check("zz=0", s0, eS0, b0, eB0, w0, eW0, u0, eU0)
+		// contexts the engine rejects: rejected by every entry point alike, nothing written
+		for _, zz := range []int{2, 3} {
+			s2, eS2, b2, eB2, w2, eW2, u2, eU2, pan2 := run(zz)
+			if pan2 != "" {
+				bad("c14-panic", fmt.Sprintf("panic (invalid context %d): %s", zz, pan2), "an error from every variant")
+				continue
+			}
+			check(fmt.Sprintf("invalid-context-%d", zz), s2, eS2, b2, eB2, w2, eW2, u2, eU2)
+			if eS2 == nil {
+				bad("c14-invalid-context-accepted", fmt.Sprintf("invalid context %d: Execute returned %q", zz, s2), "a context with a key that is not an identifier / that is an exported macro's name is an error")
+			} else if u2.buf.Len() != 0 {
+				bad("c14-variants-differ", fmt.Sprintf("invalid context %d: the unbuffered variant wrote %q", zz, u2.buf.String()), "nothing is executed")
+			}
+		}
 		// the same through writers that also have WriteString
 		for _, zz := range []int{0, 1} {
 			sw := &recStringWriter{recWriter{budget: -1}}
